@@ -97,6 +97,7 @@ type Interp struct {
 	curInstr  ssa.Instruction
 	regions   map[*ssa.If]*regionInfo
 	skipModel string
+	axiomSeen map[*Term]bool
 	forkSites map[string]int
 	notes     map[string]Value
 	pcs       []pcEntry
@@ -114,6 +115,12 @@ type Interp struct {
 	inInit    bool
 	initDone  map[*ssa.Package]bool
 	ufAxioms  []*Term
+}
+
+// nativeFn is a method of an opaque (modelled) library object.
+type nativeFn struct {
+	h    modelFn
+	name string
 }
 
 type pcEntry struct {
@@ -402,6 +409,9 @@ func (it *Interp) callFn(caller *frame, fnv Value, args []Value, site ssa.Instru
 		return it.callSSA(caller, f.Fn, args, f.Env, site)
 	case *ssa.Builtin:
 		return it.callBuiltin(caller, f, args, site)
+	case *nativeFn:
+		it.modelsHit["opaque:"+f.name]++
+		return f.h(it, caller, args, nil)
 	case nil:
 		it.rtPanic("call of nil function")
 	case Poison:
@@ -797,12 +807,21 @@ func (it *Interp) prepareCall(fr *frame, call *ssa.CallCommon) (Value, []Value) 
 		if ifc.T == nil {
 			it.rtPanic("invalid memory address or nil pointer dereference (nil interface method call)")
 		}
-		fn := it.lookupMethod(ifc.T, call.Method)
-		if fn == nil {
-			unsupported("method %s not found on %s", call.Method.Name(), ifc.T)
+		if op, isOp := ifc.V.(*Opaque); isOp {
+			h, ok := opaqueMethods[op.Kind+"."+call.Method.Name()]
+			if !ok {
+				unsupported("method %s on opaque %s", call.Method.Name(), op.Kind)
+			}
+			fnv = &nativeFn{h: h, name: op.Kind + "." + call.Method.Name()}
+			args = append(args, op)
+		} else {
+			fn := it.lookupMethod(ifc.T, call.Method)
+			if fn == nil {
+				unsupported("method %s not found on %s", call.Method.Name(), ifc.T)
+			}
+			fnv = fn
+			args = append(args, ifc.V)
 		}
-		fnv = fn
-		args = append(args, ifc.V)
 	} else {
 		fnv = it.get(fr, call.Value)
 	}
@@ -1095,7 +1114,9 @@ func (it *Interp) typeAssert(fr *frame, in *ssa.TypeAssert) Value {
 	ifc := x.(Iface)
 	var res Value
 	ok := false
-	if ifc.T != nil {
+	if _, isOp := ifc.V.(*Opaque); isOp && ifc.T != nil && types.IsInterface(in.AssertedType) {
+		res, ok = ifc, true
+	} else if ifc.T != nil {
 		if ti, isI := in.AssertedType.Underlying().(*types.Interface); isI {
 			if types.Implements(ifc.T, ti) {
 				res, ok = ifc, true
